@@ -1193,7 +1193,7 @@ def reuse_sources_case(draw, shard, tier):
     """The same listener objects (station listeners included) are handed, one iteration after the other,
     to 2-3 DIFFERENT trajectories sampled on the SAME date grid (or a shifted one)."""
     base = draw(passes_case(shard, tier))
-    base["n"] = min(base["n"], 110)
+    base["n"] = min(base["n"], 90)
     orbit_keys = ("prop", "el", "tle")
     variants = [{k: base[k] for k in orbit_keys if k in base}]
     for _ in range(draw(st.integers(1, 2))):
@@ -1288,7 +1288,7 @@ FACETS = [
           rule="stream with at least one event", quick=(8, 5), thorough=(32, 25)),
     Facet("station_passes", passes_case, check_passes, setup=setup, shrink_quick=False,
           rule="two or more passes over the station inside one iteration and at least one event",
-          quick=(8, 3), thorough=(32, 15)),
+          quick=(8, 2), thorough=(32, 15)),
     Facet("ordered", lambda s, t: stream_case(s, t, nmin=2, nmax=4), check_ordered, setup=setup, shrink_quick=False,
           rule="stream with at least one event", quick=(6, 6), thorough=(16, 50)),
     Facet("sharp", lambda s, t: stream_case(s, t, nmax=3), check_sharp, setup=setup, shrink_quick=False,
@@ -1306,7 +1306,7 @@ FACETS = [
           rule="two or more listeners and at least one event", quick=(4, 5), thorough=(16, 30)),
     Facet("reuse_other_trajectory", reuse_sources_case, check_reuse_sources, setup=setup, shrink_quick=False,
           rule="the same listener objects served at least two different trajectories and at least one event occurred",
-          quick=(8, 3), thorough=(32, 8)),
+          quick=(8, 2), thorough=(32, 8)),
     Facet("reuse", reuse_case, check_reuse, setup=setup, shrink_quick=False,
           rule="at least one event over the history", quick=(4, 4), thorough=(16, 25)),
 ]
